@@ -59,7 +59,8 @@ def fragment(draw, allow):
 @st.composite
 def template_instances(draw, allow, max_inst=6):
     frags = draw(st.lists(fragment(allow), min_size=1, max_size=5))
-    n = draw(st.integers(1, max_inst))
+    n = draw(st.one_of(st.integers(1, max_inst), st.integers(1, max_inst),
+                       st.integers(11, 16)))
     out = []
     for _ in range(n):
         parts = []
@@ -73,15 +74,37 @@ def template_instances(draw, allow, max_inst=6):
     return out
 
 
+SIZE_KEYS = {'do_all': 1, 'do_all_exceptions': 1, 'n_per_length': 1,
+             'max_sampled_attempts': 0, 'max_punc_in_group': 1,
+             'max_strings_in_group': 1}
+
+
 def size_strategy():
-    return st.one_of(
-        st.none(), st.none(), st.just(0),
-        st.fixed_dictionaries({
-            'do_all': st.integers(1, 6),
-            'do_all_exceptions': st.integers(1, 6),
-            'n_per_length': st.integers(1, 4),
-            'max_sampled_attempts': st.integers(0, 2),
-        }))
+    sampling = st.fixed_dictionaries({
+        'do_all': st.integers(1, 6),
+        'do_all_exceptions': st.integers(1, 6),
+        'n_per_length': st.integers(1, 4),
+        'max_sampled_attempts': st.integers(0, 2),
+    })
+    groups = st.fixed_dictionaries({}, optional={
+        'max_punc_in_group': st.integers(1, 6),
+        'max_strings_in_group': st.integers(1, 5),
+    })
+    both = st.tuples(sampling, groups).map(lambda t: dict(t[0], **t[1]))
+    return st.one_of(st.none(), st.none(), st.none(), st.just(0),
+                     sampling, groups.filter(bool), both)
+
+
+def valid_size(sz):
+    if sz in (None, 0):
+        return True
+    if not isinstance(sz, dict) or not sz:
+        return False
+    for (k, v) in sz.items():
+        if k not in SIZE_KEYS or not isinstance(v, int) or isinstance(
+                v, bool) or v < SIZE_KEYS[k]:
+            return False
+    return True
 
 
 def opts_strategy(with_pruning=False, dialects=PY_DIALECTS):
@@ -128,7 +151,7 @@ def examples_strategy(draw, tier='quick', allow=lambda c: True,
         k = draw(st.integers(1, 4))
         for _ in range(k):
             xs.append(xs[draw(st.integers(0, len(xs) - 1))])
-    cap = max_examples or (14 if not big else 60)
+    cap = max_examples or (18 if not big else 60)
     xs = xs[:cap]
     xs = draw(st.permutations(xs))
     return list(xs)
